@@ -8,6 +8,7 @@ pub mod relgen;
 pub mod restart;
 pub mod rl;
 pub mod structs;
+pub mod vrpmap;
 pub mod w1;
 pub mod w2;
 pub mod w3;
